@@ -210,6 +210,33 @@ def c16(run, replay=None):
             else:
                 run.violation("find result differs from the entries that satisfy all criteria: missing %r, unexpected %r" % (missing, extra),
                               dict(desc, implementation=io, expected=model))
+    # lists of regular expressions, including ones the model does not cover (inline flags, comments, anchors, classes):
+    # `patterns: [p, q]` must return what [p] returns plus what [q] returns, `excludes: [p, q]` what both [p] and [q] leave
+    EXTRA = ["(?i)^READ", "(?i)log$", "(?x) ^c # comment", "[.]txt$", "^[ab]", "(?i:SUB)", "a|b", "^$", "x\\.log", "(?s).", "\\bdeep\\b"]
+    mt = ('d', 'r', [('f', 'README.md', 1), ('f', 'readme.txt', 1), ('f', 'notes.MD', 1), ('f', 'c.txt', 1), ('f', 'b.log', 1), ('f', 'x.LOG', 1),
+                     ('d', 'sub', [('f', 'a', 1), ('f', 'deep', 1), ('f', 'Sub.txt', 1)]), ('f', 'a|b', 1)])
+    mw = world_nodes(mt)
+    pairs = [(a, b) for a in EXTRA for b in EXTRA if a != b]
+    if run.tier == "quick":
+        pairs = rng.sample(pairs, 40)
+    mcases, mkey = [], []
+    for a, b in pairs:
+        for key in ("patterns", "excludes"):
+            for lst in ([a, b], [a], [b]):
+                mcases.append(dict(world=mw, params="paths: ROOT/r\nrecurse: true\nfile_type: any\n%s: %s\n" % (key, json.dumps(lst)), lookup=False))
+            mkey.append((key, a, b))
+    mouts = C.run_harness("find", mcases, prepare=prep)
+    for i, (key, a, b) in enumerate(mkey):
+        oo = [o.get("module", {}).get("ok") for o in mouts[3 * i:3 * i + 3]]
+        if any(x is None for x in oo):
+            if not all(x is None for x in oo[1:]) and oo[0] is None and oo[1] is not None and oo[2] is not None:
+                run.violation("find %s: %r fails although each of its regexes is accepted alone" % (key, [a, b]), dict(key=key, list=[a, b], observed=mouts[3 * i]))
+            continue
+        both, ra, rb = [set(x) for x in oo]
+        want = (ra | rb) if key == "patterns" else (ra & rb)
+        if both != want:
+            run.violation("find %s: the list %r returns %r, but %r alone returns %r and %r alone %r" % (key, [a, b], sorted(both), a, sorted(ra), b, sorted(rb)),
+                          dict(key=key, list=[a, b], tree=mt))
     # K34: the walker skips the file its own standard output is redirected to (ignore::WalkBuilder::skip_stdout)
     import subprocess
     kroot = os.path.join(FIND_ROOT, "k34")
